@@ -46,6 +46,13 @@ def specs(tier, seed):
                                       "what": "hostile"}],
                             "label": "%s/%s%d/%d" % (qt, kind, ord_, rep), "hs_limit_ms": 200000})
                 k += 1
+    # raw UDP mode: the client's other receive path (4-byte raw header, no DNS parsing)
+    for rep in range(2 if tier == "quick" else 12):
+        for ord_ in range(5):
+            out.append({"seed": seed * 100000 + k, "sess": {"qtype": "NULL", "raw": True}, "pkts": PKTS + [[2500, "S", "C0", "rand", 700]],
+                        "dur_ms": 6000, "plan": [{"kind": "rawdown", "k": ord_, "n": 14}],
+                        "label": "raw/rawdown%d/%d" % (ord_, rep), "hs_limit_ms": 200000})
+            k += 1
     # fragment chains: one downstream packet that never ends, each fragment as large as the record type carries
     # (MX / SRV answers decode to tens of kilobytes: the reassembly buffer must clamp the SUM, not each fragment)
     sizes = {"NULL": [4094, 1200], "PRIVATE": [4094], "TXT": [1100, 4000], "CNAME": [140], "A": [140],
